@@ -27,6 +27,10 @@ type C04Episode struct {
 	Begin         []string `json:"begin"` // per attempt: ok fail werr silent close
 	End           []string `json:"end"`
 	Cancel        string   `json:"cancel"` // "" | before-begin | during-business | during-second
+	// Nested: the business callback opens a scope of its own on the context
+	// it was given (default propagation: it joins); "join-err": that inner
+	// callback fails and the outer one carries on regardless
+	Nested string `json:"nested,omitempty"`
 }
 
 type C04Plan struct {
@@ -73,6 +77,9 @@ func genC04(seed uint64, tier string) *C04Plan {
 		}
 		if g.Prob(0.15) {
 			e.Cancel = simkit.Pick(g, []string{"before-begin", "during-business", "during-second"})
+		}
+		if g.Prob(0.2) {
+			e.Nested = simkit.Pick(g, []string{"join-ok", "join-ok", "join-err"})
 		}
 		p.Episodes = append(p.Episodes, e)
 	}
@@ -228,6 +235,21 @@ func runC04(t *testing.T, seed uint64, planJSON []byte, tier string) (res *Resul
 				ret = tm.WithGlobalTx(ctx, &tm.GtxConfig{Name: cur.name, Timeout: 60 * time.Second}, func(c context.Context) error {
 					cur.bizRan = true
 					cur.bizXid = tm.GetXID(c)
+					if ep.Nested != "" {
+						sim.Probe("c04-nested-scope-" + ep.Nested)
+						ierr := tm.WithGlobalTx(c, &tm.GtxConfig{Name: cur.name + "-inner", Timeout: 60 * time.Second}, func(c2 context.Context) error {
+							if x := tm.GetXID(c2); x != cur.bizXid {
+								sim.Violate("C04", "one-decision", "nested-scope-other-xid", "episode %d: the scope opened inside the business callback ran under xid %q, the enclosing one under %q", i, x, cur.bizXid)
+							}
+							if ep.Nested == "join-err" {
+								return errors.New("inner scope failed")
+							}
+							return nil
+						})
+						if (ierr != nil) != (ep.Nested == "join-err") {
+							sim.Violate("C04", "truthful-return", "nested-scope-return", "episode %d: the joined inner scope (%s) returned %v", i, ep.Nested, ierr)
+						}
+					}
 					if cur.cancelAt == "during-business" {
 						cancel()
 					}
